@@ -34,6 +34,12 @@ CHECKS = {
    text="For each generated program all assignments of its condition booleans and loop lengths (up to 160, else sampled) are rendered in .txt and .html; per path the feature-guarded balance monitor (frame depth, capture depth, auto-escape stack and operand stack equal at entry and normal exit of every instruction-stream evaluation; no foreign frame/capture popped) must stay silent, markers written after every top-level construct must reach the output in order, the escape mode and outer variables must be as before, inner assignments of isolating constructs must be gone.",
    note="Paths are complete only for programs with at most 160 assignments. The reference-interpreter comparison of whole outputs is part of C03.",
    design="3/C05"),
+ "C06": dict(
+   technique="property-based testing against a reference model plus exhaustive enumeration of small shape vectors: inheritance chains are generated as shape vectors (per template and block: absent / override / super before, after, twice / self-call; extends styles; include and import placements), turned into template sets and compared with the reference interpreter's multi-template semantics; error shapes are enumerated and must come back as errors of the documented kind",
+   level="exploration",
+   text="Chains of 1-5 templates over blocks a, b, c nested in a, d nested in c with every override/super choice, extends as first tag / after text / inside if / dynamic / conditional expression, top-level set and outside text, includes (literal, dynamic, lists with missing entries, ignore missing, an included template with its own chain reusing a block name) and import / from-import placed at top level, in blocks, loops, with-blocks and macros. All shape vectors over {a, c in a} for chains up to 4 templates are enumerated in the quick tier (5 in thorough). 136 error shapes (inheritance, include and import cycles, double extends, missing parent/include/import, super() without parent or outside a block, required block not overridden) must yield Err with the documented kind, with and without leading text.",
+   note="Oracle = harness/src/refint.rs, written from the documentation. Not generated because the documentation is silent: reading names an included template assigned, super() into a required block, what a macro sees of later top-level assignments.",
+   design="3/C06"),
  "C07": dict(
    technique="property-based testing: law checking (reflexive/antisymmetric/transitive/eq-cmp-hash agreement) over generated value triples biased to same-value-different-representation twins; metamorphic agreement of template operators; algebraic laws of sort/unique/groupby/batch/slice/reverse/min/max over generated inputs with hidden identities; both map implementations",
    level="exploration",
